@@ -302,6 +302,8 @@ def runSolve (lines : List String) : List String :=
             -- the structured twin of the call log (the object of the C12 theorems) renders to the call log itself
             let ghost := ghost ++ (if ((ms'.glog.take (ms'.glog.length - ms.glog.length)).reverse.map Resolvo.MDet.gevStr) == newLog then []
               else ["oracle-fail C09,C10,C12 mdet-ghost: the model's structured call log differs from its call log"])
+            let ghost := ghost ++ (if (ms'.issuedDeps.reverse.map (fun n => s!"d{n}")) == newLog.filter (fun w => w.startsWith "d") then []
+              else ["oracle-fail C09,C10 mdet-ghost: the model's structured record of get_dependencies requests differs from its call log"])
             (mdetCompare U ms' o newLog (ms'.trace.reverse.map Resolvo.MDet.evLine) i ++ evs ++ ghost ++ chk, ms')
           else ([], ms)
         -- C15 family: the spec-level expectation (two candidates of one package required => Unsolvable; one => solvable)
